@@ -782,15 +782,18 @@ func TestDecodePrefixedExhaustive(t *testing.T) {
 
 // ---------------------------------------------------------------- native fuzzing
 
+// Seeded with the spec tokens; with VERIF_FUZZ_CORPUS=empty nothing is added and the fuzzer
+// starts from Go's zero-value input (use a fresh -test.fuzzcachedir for a really empty start).
 func FuzzDecode(f *testing.F) {
-	for _, s := range specTokens {
-		f.Add(s)
+	if os.Getenv("VERIF_FUZZ_CORPUS") != "empty" {
+		for _, s := range specTokens {
+			f.Add(s)
+		}
+		f.Add("cashuA")
+		f.Add("cashuB")
+		f.Add("cashuAe30=")
+		f.Add("cashuBoA")
 	}
-	f.Add("")
-	f.Add("cashuA")
-	f.Add("cashuB")
-	f.Add("cashuAe30=")
-	f.Add("cashuBoA")
 	f.Fuzz(func(t *testing.T, s string) {
 		for _, v := range checkTotal(s).violations {
 			if rec.IsKnown(v.sig) {
